@@ -45,7 +45,7 @@ def collect(ctx):
 def check(ctx, items):
     drv = vlib.Driver()
     val = schema_validator()
-    replies = drv.run([{'cmd': 'wf', 'doc': enc(doc), 'diff': enc_diff(d)} for _, doc, d in items])
+    replies = drv.run([{'cmd': 'wfchars' if o.endswith('.line') else 'wf', 'doc': enc(doc), 'diff': enc_diff(d)} for o, doc, d in items])
     for (origin, doc, d), rep in zip(items, replies):
         ctx.count('origin:' + origin)
         ctx.count('ops:%d' % min(len(d), 6))
